@@ -150,7 +150,7 @@ pub fn run(types: &str, input: &str, output: &str) -> Value {
             };
             writeln!(out, "{}", json!({"ty": c["ty"], "kind": c["kind"], "item": c["item"], "sver": c["sver"], "tver": (tv as u32).trailing_zeros(),
                 "srcok": srcok, "nerr": errs.len(), "maskhas": tv.compatible(mask), "relabel_ok": relabel_ok, "setver_ok": setver_ok, "after_ok": after_ok,
-                "same": same, "exp": c["expmask"]})).unwrap();
+                "same": same, "other_ok": true, "exp": c["expmask"]})).unwrap();
             records += 1;
         }
         // the same item in a model of two merged files: the check of a file must be the check of that file's own view.
@@ -187,10 +187,20 @@ pub fn run(types: &str, input: &str, output: &str) -> Value {
                     let rl = relabel(&own, sver, tv);
                     let relabel_ok = AutosarModel::new().load_buffer(rl.as_bytes(), "r.arxml", true).is_ok();
                     // set_version of this file on a fresh copy of the merged model; the other file keeps its version
+                    let mut other_ok = true;
                     let (setver_ok, after_ok, same) = match build_multi(&tj, &c, d) {
                         Some((m2, b2, e2, _, _)) => {
-                            let f2 = if which == "base" { b2 } else { e2 };
+                            let (f2, other) = if which == "base" { (b2, e2) } else { (e2, b2) };
                             let r = f2.set_version(tv).is_ok();
+                            // the other file of the model is untouched: it is still written with its own version, and reads back as before
+                            let before_other = if which == "base" { &tf } else { &ts };
+                            other_ok = other.version() == sver && other.serialize().ok().map(|t| {
+                                let (a, b) = (AutosarModel::new(), AutosarModel::new());
+                                match (a.load_buffer(t.as_bytes(), "o.arxml", false), b.load_buffer(before_other.as_bytes(), "p.arxml", false)) {
+                                    (Ok((fa, _)), Ok(_)) => fa.version() == sver && proj(&a.root_element()) == proj(&b.root_element()),
+                                    _ => false,
+                                }
+                            }).unwrap_or(false);
                             let same = text_hash(&proj(&m2.root_element()).to_string()) == d0;
                             let after = if r {
                                 f2.serialize().ok().map(|t| {
@@ -206,7 +216,7 @@ pub fn run(types: &str, input: &str, output: &str) -> Value {
                     };
                     writeln!(out, "{}", json!({"ty": c["ty"], "kind": format!("{}/{}@{}", c["kind"].as_str().unwrap_or(""), which, d), "item": c["item"], "sver": c["sver"],
                         "tver": (tv as u32).trailing_zeros(), "srcok": srcok && view_ok, "nerr": errs.len(), "maskhas": tv.compatible(mask), "relabel_ok": relabel_ok,
-                        "setver_ok": setver_ok, "after_ok": after_ok, "same": same, "exp": c["expmask"]})).unwrap();
+                        "setver_ok": setver_ok, "after_ok": after_ok, "same": same, "other_ok": other_ok, "exp": c["expmask"]})).unwrap();
                     records += 1;
                     multi += 1;
                 }
